@@ -119,6 +119,9 @@ def real_function(reg, c):
 def auto_replay(reg, c, model, clause):
     """generic replay for contracts whose params are scalars/bytes/simple records; returns a dict for the replay file"""
     out = {'function': f'{c.file}:{c.qualname}', 'clause': clause, 'model': model, 'confirmed': False}
+    if c.segment:
+        out['note'] = 'segment contract: its postcondition is over locals of the real function; no generic native replay (a contract-specific differential replay is used where registered)'
+        return out
     try:
         fn, mod = real_function(reg, c)
     except Exception as e:
@@ -257,7 +260,10 @@ def _show(v, depth=0):
         return [_show(x, depth + 1) for x in v[:50]]
     if hasattr(v, '__dict__') and depth < 2:
         return {'class': type(v).__name__, **{k: _show(x, depth + 1) for k, x in list(vars(v).items())[:20]}}
-    return repr(v)[:200]
+    try:
+        return repr(v)[:200]
+    except Exception:
+        return f'<{type(v).__name__}>'
 
 
 def write_replay(path, data):
